@@ -2,6 +2,7 @@
 # Applies every seeded change under /verif/seeded to /repo (working tree only), runs the quick check
 # of the property it breaks, reverts, and prints one line per change.
 cd "$(dirname "$0")"
+if [ -n "$(git -C /repo status --porcelain)" ]; then echo "run_seeded: /repo has uncommitted changes (they would be lost by the revert): commit them first" >&2; exit 2; fi
 for d in seeded/*/; do
   n=$(basename "$d"); prop=${n%%_*}
   [ -n "$1" ] && [ "$1" != "$n" ] && [ "$1" != "$prop" ] && continue
